@@ -942,8 +942,26 @@ def check_C08(ctx):
             extra = sorted(sb - sa)
             lost = sorted(sa - sb)
             cls = _c08_class(hk, [seg(x) for x in extra], [seg(x) for x in lost], a, b)
+            if cls.startswith("sites_differ") and extra and not lost and _in_chain("\n".join(src), [x[1] for x in extra if x]):
+                cls = "crosstalk:chain_eager"
             ctx.violation("C08:%s" % cls, "hook %s receives a different sequence when instrumented within %s (%d hooks) than alone: first difference at %d: %r vs %r; extra sites %r lost sites %r" % (
                 hk, label, len(c.get("select") or []), j, a[j:j + 1], b[j:j + 1], [seg(x)[:30] for x in extra][:3], [seg(x)[:30] for x in lost][:3]), {"solo": solo, "full": c})
+
+
+def _in_chain(text, locs):
+    """are all these (sl, sc, el, ec) locations inside a comparison chain of two or more links?"""
+    import ast as _ast
+
+    try:
+        tree = _ast.parse(text)
+    except SyntaxError:
+        return False
+    spans = [(n.lineno, n.col_offset, n.end_lineno, n.end_col_offset) for n in _ast.walk(tree) if isinstance(n, _ast.Compare) and len(n.ops) >= 2]
+
+    def inside(l, s_):
+        return (s_[0], s_[1]) <= (l[0], l[1]) and (l[2], l[3]) <= (s_[2], s_[3])
+
+    return bool(locs) and all(any(inside(tuple(l), s_) for s_ in spans) for l in locs)
 
 
 def _c08_class(hk, extra_segs, lost_segs, a, b):
@@ -1031,6 +1049,8 @@ def check_C03(ctx):
         want_res = o["globals"].get("res")
         if cat in ("bin", "cmp", "bool"):
             opnds = [x for x in o["log"] if x[0] in ("new", "k")]
+            if c["id"].split("/")[2] == "4" and opnds and list(opnds[0]) == ["k", 1]:
+                opnds = opnds[1:]  # context 4 evaluates its own condition k(1) before the operands
             l_ = ("R%d" % opnds[0][1]) if opnds[0][0] == "new" else repr(opnds[0][1])
             if len(opnds) > 1:
                 r_ = ("R%d" % opnds[1][1]) if opnds[1][0] == "new" else repr(opnds[1][1])
